@@ -32,6 +32,10 @@ VALUES = (
     [M([]), M([(S("a"), I(1))]), M([(S("a"), U(1))]), M([(S("a"), D(1.0))]), M([(S("a"), I(2))]), M([(S("b"), I(1))]),
      M([(S("a"), I(1)), (S("b"), I(2))]), M([(I(1), S("x"))]), M([(B(True), L([I(1)]))]), M([(S("a"), D(float('nan')))]),
      M([(S("a"), L([I(1), I(2)]))]), M([(S("a"), L([I(1)]))])] +
+    # maps holding one number under both integer spellings (coherence laws only, see twin_ambiguous)
+    [M([(I(1), S("x")), (U(1), S("x"))]), M([(I(1), S("x")), (I(2), S("y"))]), M([(I(1), S("x"))]), M([(U(1), S("x"))]),
+     M([(U(1), S("x")), (U(2), S("y"))]), M([(I(0), I(0)), (U(0), I(0))]), M([(I(0), I(0)), (S("k"), I(0))])] +
+    [D(0.1), D(0.2), D(0.30000000000000004), D(0.3), D(1e-17), D(-1e-17), D(0.9999999999999999), D(1.0000000000000002)] +
     [DUR(0), DUR(1), DUR(-1), DUR(10 ** 9), DUR(I64_MAX), DUR(I64_MIN)] +
     [TS(0, 0, 0), TS(0, 0, 3600), TS(1, 0, 0), TS(0, 1, 0), TS(-1, 999999999, -7200), TS(1685232000, 0, 19800)]
 )
@@ -52,7 +56,34 @@ def units(tier, seed):
     return us
 
 
+def int_keys(v, acc):
+    if v[0] == 'm':
+        for k, x in v[1]:
+            if k[0] in ('i', 'u'):
+                acc.add(k)
+            int_keys(x, acc)
+    elif v[0] == 'l':
+        for x in v[1]:
+            int_keys(x, acc)
+
+
+def twin_ambiguous(a, b):
+    """Do the two values contain maps with numerically equal integer keys of different kinds? Whether such
+    entries are 'the same entry' is not pinned down by the statement: exactness is then not judged (the
+    coherence laws still are)."""
+    ka, kb = set(), set()
+    int_keys(a, ka)
+    int_keys(b, kb)
+    allk = ka | kb
+    nums = {}
+    for k in allk:
+        nums.setdefault(k[1], set()).add(k[0])
+    return any(len(kinds) > 1 for kinds in nums.values())
+
+
 def expect_eq(a, b):
+    if twin_ambiguous(a, b):
+        return None
     return cel_eq(a, b)
 
 
@@ -96,8 +127,9 @@ def check_pair(res, a, b, obs, direct, case):
         return None
     if ne != (not eq):
         bad('incoherent', '!= is not the negation of ==', {"==": eq}, {"!=": ne})
-    if eq != expect_eq(a, b):
-        bad('wrong-value', '== differs from the values denoted', expect_eq(a, b), eq)
+    want = expect_eq(a, b)
+    if want is not None and eq != want:
+        bad('wrong-value', '== differs from the values denoted', want, eq)
     if 'in' in obs:
         iv = val('in')
         if iv is None or iv != eq:
